@@ -1,6 +1,6 @@
 # C12 -- brace- and special-character-aware string primitives.
 # Model: coq/Model/BibtexStr.v; spec: coq/Spec/BibtexStrSpec.v; theorems: coq/Props/C12.v
-import itertools, random, re
+import itertools, random, re, json, os
 from core import *
 
 ID = 'C12'
@@ -47,6 +47,18 @@ def impl_bst(a):
         return r
     return call_impl(run)
 
+def impl_pattern(a):
+    """the live module-level regex objects (and the separator literal of split_name_list)"""
+    import re as _re
+    u = _u(); k = a[0]; s = S(a[1])
+    if k == 0:
+        return norm(u.BIBTEX_SPACE_RE.split(s))
+    if k == 1:
+        return norm(u.purify_special_char_re.sub('', s))
+    if k == 2:
+        return norm(_re.compile(' [Aa][Nn][Dd] ').split(s))
+    return norm(list(u._find_closing_brace(s)))
+
 FUNCS = {
     1: ('scan_bibtex_string', impl_scan, ('T', 'S')),
     2: ('bibtex_len', impl_len, ('T', 'S')),
@@ -59,6 +71,7 @@ FUNCS = {
     9: ('split_tex_string', impl_split, ('T', 'S', 'X', 'X', 'X')),
     10: ('bibtex_first_letter', impl_first_letter, ('T', 'S')),
     11: ('bibtex_abbreviate', impl_abbreviate, ('T', 'S', ('O', 'S'))),
+    13: ('regex objects BIBTEX_SPACE_RE / purify_special_char_re / name-list separator', impl_pattern, ('T', 'X', 'S')),
     12: ('BST builtins substring$/text.prefix$/text.length$/purify$/change.case$/width$/num.names$', impl_bst, ('T', 'X', 'S', 'I', 'I', 'X')),
 }
 
@@ -66,21 +79,24 @@ ALPHA = 'aB1 ~-{}\\,:'
 RULE = ('exhaustive: every string over the 11-letter alphabet {a B 1 space ~ - { } \\ , :} up to the length bound, each given to every '
         'function (with every start/length/count in [-(n+2), n+2], every mode letter, the four separators x strip x filter_empty) and to the BST builtins; '
         'random: long strings over a wider alphabet (letters, digits, all Python whitespace, TeX punctuation), special characters, nesting to depth 105; '
-        'malformed: token-level delete/duplicate/replace/truncate of the random strings. '
+        'malformed: token-level delete/duplicate/replace/truncate of the random strings; pattern_sweep: BIBTEX_SPACE_RE.split, purify_special_char_re.sub and the name-list separator against the hand-written matchers on all strings up to length 5/6 over per-pattern alphabets. '
         'distinct = distinct (function, argument); non-trivial = the string contains a brace or a backslash and the call succeeded.')
-EXHAUSTIVE = {'quick': 'all strings of length <= 3 (plus a seeded sample of length 4) over an 11-letter alphabet x all functions x all integer arguments in [-(n+2), n+2]',
-              'thorough': 'all strings of length <= 5 over an 11-letter alphabet x all functions x all integer arguments in [-(n+2), n+2]'}
+EXHAUSTIVE = {'quick': 'all strings of length <= 3 over an 11-letter alphabet x all functions x all integer arguments in [-(n+2), n+2] (plus a seeded 15 % sample of length 4 with boundary integer arguments)',
+              'thorough': 'all strings of length <= 3 over an 11-letter alphabet x all functions x all integer arguments in [-(n+2), n+2]; all strings of length 4 and a seeded 2 % sample of length 5 with boundary integer arguments (memory bound: the harness keeps every case in memory, ~1.2 kB per case)'}
 TRUSTED_BASE = ['modelled (not verified) code: pybtex/bibtex/utils.py lines 96-604 (everything except wrap, which is C19) and the seven builtins of pybtex/bibtex/builtins.py that call it',
                 'regular expressions BIBTEX_SPACE_RE, BRACE_RE, purify_special_char_re and the separators are hand-written matchers, compared with the live re objects through the functions that use them on the exhaustive stream']
 ASSUMPTIONS = ['letter/digit classes and case mapping are modelled on ASCII; non-ASCII letters are outside the claimed domain (DESIGN.md 2.2)']
 PARTIAL = [
-    'prefix_shape is proved for balanced strings; on a string that ends inside an unclosed special character with open inner braces the code closes one brace only (finding C12-P1, prefix_shape_refuted)',
-    'change_case_length / change_case_upto_case / change_case_idem are proved for strings that do not end inside an unclosed special character (for those the scanner emits a closing brace that is not in the input: change_case_unbalanced_example)',
-    'split_*: the re-assembly theorem is about the model of split_tex_string with strip=False; that strip/filter_empty remove only whitespace / empty pieces is checked by the oracle, not proved',
-    'bibtex_first_letter, bibtex_abbreviate, bibtex_width, _find_closing_brace are tied by the correspondence only (the property text states no law about them)',
+    'prefix_shape (k = exact depth) is proved for every string that does not end inside a never-closed special character, prefix_closes for balanced strings; otherwise the code may close one brace only (finding C12-P1, prefix_closes_refuted); for all strings: prefix_is_prefix with k <= depth',
+    'split_never_in_braces is proved for balanced strings and for all strings whose groups are all closed; refuted otherwise (finding C12-S1, split_never_in_braces_refuted); split_reassemble holds for all strings',
+    'change_case_length / change_case_idem are proved for every string that does not end inside a never-closed special character (for those the scanner emits a closing brace that is not in the input: change_case_unbalanced_example, change_case_upto_case_all)',
+    'bibtex_abbreviate, _find_closing_brace and the BST builtins are tied by the correspondence only (the property text states no law about them); bibtex_width / bibtex_first_letter: additivity / shape theorems only',
+    'the separator regexes are hand-written matchers; agreement with the live re objects is tested (pattern sweep + through split_tex_string), not proved',
 ]
 
 def describe(fn, a):
+    if fn == 13:
+        return {'pattern': ['BIBTEX_SPACE_RE.split', 'purify_special_char_re.sub', "' [Aa][Nn][Dd] '.split", '_find_closing_brace'][a[0]], 'string': S(a[1])}
     if fn == 12:
         return {'function': BST[a[0]], 'string': S(a[1]), 'args': [a[2], a[3], S(a[4])]}
     d = {'function': FUNCS[fn][0], 'string': S(a[0])}
@@ -88,7 +104,12 @@ def describe(fn, a):
         d['args'] = a[1:]
     return d
 
+def canon(fn, out):
+    return out if fn == 13 else canon_res(out)
+
 def nontrivial(fn, a, out):
+    if fn == 13:
+        return len(out) > 1 if a[0] in (0, 2) else out != a[1]
     return out[0] == 0 and any(c in (123, 125, 92) for c in (a[1] if fn == 12 else a[0]))
 
 def cw_for(s):
@@ -186,10 +207,10 @@ def one_to_one_case(s):
 
 SEP_RE = [re.compile(r'(?:\\ |\s|(?<!\\)~)+'), re.compile(','), re.compile('-'), re.compile(' [Aa][Nn][Dd] ')]
 
-def reassemble(s, pieces, sepk, filtered):
+def reassemble(s, pieces, sepk, filtered, dep=None):
     """unfiltered: s = p1 S1 p2 ... S(n-1) pn;  filtered (empty pieces dropped): s = S* p1 S+ p2 ... S+ pn S*;
     every S a match of the separator pattern (in the context of s) all of whose characters are at brace depth 0"""
-    dep = depths(s)
+    dep = dep or depths(s)
     pat = SEP_RE[sepk]
     n = len(s)
     def sep_ends(pos):
@@ -232,6 +253,8 @@ def reassemble(s, pieces, sepk, filtered):
     return F(0, 0, True)
 
 def oracle(fn, a, out):
+    if fn == 13:
+        return None      # pattern conformance is a correspondence matter only
     if fn == 12:
         k = a[0]
         if k == 4:
@@ -349,29 +372,37 @@ def crash_msg(out, s):
     return None
 
 # ----------------------------------------------------------------------------------------
-def cases_for(s, full=True, rng=None):
+def cases_for(s, full=True, light=False):
+    """every modelled function on s.  full: all integer arguments in [-(n+2), n+2]; otherwise a boundary
+    set; light: a smaller boundary set and fewer flag combinations (thorough tier, length >= 4)"""
     n = len(s)
     yield (1, [s]); yield (2, [s]); yield (5, [s]); yield (8, [s]); yield (10, [s])
     yield (7, [s])
     for m in range(3):
         yield (6, [s, m])
-    rng_ = range(-(n + 2), n + 3) if full else [-(n + 1), -1, 0, 1, 2, n, n + 1]
-    for k in rng_:
+    if full:
+        rng_ = range(-(n + 2), n + 3)
+    elif light:
+        rng_ = [-(n + 1), -2, 0, 1, n]
+    else:
+        rng_ = [-(n + 1), -1, 0, 1, 2, n, n + 1]
+    for k in (rng_ if not light else [-1, 0, 1, 2, n - 1, n, n + 1]):
         yield (3, [s, k])
     for st in rng_:
         for ln in rng_:
             yield (4, [s, st, ln])
     for sep in range(4):
-        for strip in (0, 1):
-            for fe in (0, 1):
-                yield (9, [s, sep, strip, fe])
+        for strip, fe in ([(0, 0), (1, 1)] if light else [(0, 0), (0, 1), (1, 0), (1, 1)]):
+            yield (9, [s, sep, strip, fe])
     yield (11, [s, []]); yield (11, [s, ['.']]); yield (11, [s, ['']])
     # through the BST builtins
-    for k in (-1, 0, 1, 2, n):
+    for k in ((1, n) if light else (-1, 0, 1, 2, n)):
         yield (12, [1, s, k, 0, ''])
-    yield (12, [0, s, 2, 1, '']); yield (12, [0, s, -2, 3, '']); yield (12, [0, s, 1, n, ''])
+    yield (12, [0, s, -2, 3, ''])
+    if not light:
+        yield (12, [0, s, 2, 1, '']); yield (12, [0, s, 1, n, ''])
     yield (12, [2, s, 0, 0, '']); yield (12, [3, s, 0, 0, '']); yield (12, [5, s, 0, 0, '']); yield (12, [6, s, 0, 0, ''])
-    for md in ('l', 'U', 't', 'Title', '', 'x'):
+    for md in (('U', 'x') if light else ('l', 'U', 't', 'Title', '', 'x')):
         yield (12, [4, s, 0, 0, md])
 
 WIDE = 'abcXYZ019 \t\n\xa0~-{}\\,:;.!?\'"`^$&%#_@()[]=+*/|<> andAND'
@@ -415,19 +446,32 @@ PINNED = ['', 'abc', 'a{b}c', '{\\', '{\\}', '{\\a', '{a', '}', '}{', 'ab{\\cd',
           'a:  B c:\tD', 'a:B C', '{\\a B}:{\\c D} E', 'abcdef', 'ab{cd}', 'ab{\\cd}', 'level 0 {1 {\\2}}', '{\\a}{\\b}c', '{}', '{}{\\a}', 'a{\\}b',
           'x{y} and {z and w} AND v', ' and ', 'a and ', ' and and and ', 'a,,b,{c,d},', '-a--b-{-c-}-', '~a~~b\\ c\\~d ~']
 
+SWEEP = [(0, 'a ~\\\xa0\t'), (1, '\\aZ1 {'), (2, ' aAnNdDx')]
 def gen(tier, rng):
-    maxlen = 4 if tier == 'quick' else 5
+    quick = tier == 'quick'
+    # pattern conformance sweep: all strings up to the bound over a per-pattern alphabet
+    for k, alpha in SWEEP:
+        bound = (4 if k == 2 else 5) if quick else (5 if k == 2 else 6)
+        for n in range(0, bound + 1):
+            for tup in itertools.product(alpha, repeat=n):
+                yield ('pattern_sweep', 13, [k, ''.join(tup)])
+    for s in [' and ', 'a and b', 'a AND b and  c', ' And and ', 'x aNd y', 'a and', 'and b', ' and  and ']:
+        yield ('pattern_sweep', 13, [2, s])
     for s in PINNED:
-        for fn, a in cases_for(s):
+        for fn, a in cases_for(s, full=len(s) <= 6):
             yield ('pinned', fn, a)
-    for n in range(0, maxlen + 1):
+    for n in range(0, 5 if quick else 6):
         for tup in itertools.product(ALPHA, repeat=n):
             s = ''.join(tup)
-            if tier == 'quick' and n == 4 and rng.random() > 0.2:
-                continue
-            for fn, a in cases_for(s, full=(n <= 3 or tier != 'quick')):
+            if n >= 4:
+                # quick: 15 % of length 4; thorough: every string of length 4, 2 % of length 5
+                if quick and rng.random() > 0.15:
+                    continue
+                if not quick and n == 5 and rng.random() > 0.02:
+                    continue
+            for fn, a in cases_for(s, full=(n <= 3), light=(not quick and n >= 4)):
                 yield ('exhaustive', fn, a)
-    for i in range(700 if tier == 'quick' else 30000):
+    for i in range(700 if quick else 4000):
         s = rand_string(rng)
         for fn, a in cases_for(s, full=False):
             yield ('random', fn, a)
@@ -441,7 +485,8 @@ def gen(tier, rng):
 # ----------------------------------------------------------------------------------------
 # known findings (listed in known_findings.d/C12.json)
 def _sig_p1(kind, fn, a, detail):
-    # bibtex_prefix of a string that ends inside an unclosed special character whose inner braces are still open
+    # bibtex_prefix of a string that ends inside an unclosed special character whose inner braces are still
+    # open, with n reaching the end of the string: the result is the whole string plus ONE closing brace
     if fn == 12 and a[0] == 1:
         fn, a = 3, [a[1], a[2]]
     if kind != 'oracle' or fn != 3 or not str(detail).startswith('prefix does not close the braces it opened'):
@@ -451,17 +496,30 @@ def _sig_p1(kind, fn, a, detail):
     if not (it and it[-1][0] == 's' and not it[-1][3]):
         return False
     inner = s[it[-1][1] + 1:]
-    return depths(inner)[-1] > 0 and a[1] >= spec_len(s)
+    if not (depths(inner)[-1] > 0 and a[1] >= spec_len(s)):
+        return False
+    return impl_prefix(a) == [0, norm(s + '}')]
 
 def _sig_s1(kind, fn, a, detail):
-    # split_tex_string on a string with a never-closed top-level brace group that contains another brace
-    if kind != 'oracle' or fn != 9 or 're-assemble' not in str(detail):
+    # split_tex_string on a string with a never-closed top-level brace group that contains another brace:
+    # the text after the last brace is treated as top level.  The signature matches only if the pieces DO
+    # re-assemble under exactly that (defective) notion of depth, so any other splitting error still alarms.
+    if kind != 'oracle' or fn != 9 or 're-assemble' not in str(detail) or a[2]:
         return False
     s = S(a[0])
-    for kind_, i, j, closed in items(s):
-        if kind_ in ('g', 's') and not closed:
-            return any(c in '{}' for c in s[i + 1:])
-    return False
+    it = items(s)
+    if not (it and it[-1][0] in ('g', 's') and not it[-1][3]):
+        return False
+    i = it[-1][1]
+    last = max(s.rfind('{'), s.rfind('}'))
+    if last <= i:
+        return False
+    dep = depths(s)
+    dep = dep[:last + 1] + [0] * (len(s) - last)
+    out = impl_split(a)
+    if out[0] != 0:
+        return False
+    return reassemble(s, [S(x) for x in out[1]], a[1], bool(a[3]) or a[1] == 0, dep)
 
 KNOWN_SIGNATURES = {'C12-P1': _sig_p1, 'C12-S1': _sig_s1}
 
@@ -471,3 +529,67 @@ def replay_known(k):
         return None
     fn, a = p['fn'], norm(p['arg'])
     return oracle(fn, a, FUNCS[fn][1](a))
+
+# ----------------------------------------------------------------------------------------
+# thorough tier: extraction cross-checked against the kernel's evaluator.  A sample of the cases is
+# evaluated by `vm_compute` inside Coq (dispatch = the very term that is extracted) and compared with
+# what the extracted OCaml runner printed for the same cases.
+def _coq_sexp(v):
+    if isinstance(v, int):
+        return '(A (%d))' % v
+    return '(L [' + '; '.join(_coq_sexp(x) for x in v) + '])'
+
+def extra_checks(ck, tier, rng):
+    if tier != 'thorough':
+        return
+    import os, re as _re
+    sample = []
+    r2 = random.Random(ck.seed)
+    for i, (stream, fn, a) in enumerate(gen('quick', random.Random(ck.seed))):
+        if r2.random() < 0.0012 and len(sx(norm(a))) < 400:
+            sample.append((fn, norm(model_arg(fn, norm(a)))))
+    outs = ck.model.run(sample, ck.rundir, shards=1)
+    src = open(os.path.join(COQ, 'Extr', 'C12.v')).read()
+    src = _re.sub(r'^\s*(Require Extraction|Require Import ExtrOcamlBasic|Extraction [^\n]*)\.?\s*$', '', src, flags=_re.M)
+    lines = [src, 'Local Open Scope Z_scope.']
+    for i, ((fn, a), o) in enumerate(zip(sample, outs)):
+        lines.append('Example xc_%d : dispatch (%d) %s = %s. Proof. vm_compute. reflexivity. Qed.' % (i, fn, _coq_sexp(a), _coq_sexp(o)))
+    path = os.path.join(ck.rundir, 'XCheckC12.v')
+    open(path, 'w').write('\n'.join(lines) + '\n')
+    rc, log = coqc_file(path, ck.rundir)
+    fails = []
+    if rc != 0:
+        fails.append(('vm_compute evaluation of dispatch differs from the extracted runner (or the file failed to compile)', log[-1500:], False))
+    yield {'name': 'vm_compute_crosscheck', 'evaluations': len(sample), 'failures': fails,
+           'info': 'dispatch evaluated by vm_compute inside Coq on a sample of the quick stream equals the output of the extracted OCaml runner'}
+
+    # generator reach, measured: the implementation side of a sample of the quick stream under `coverage`,
+    # restricted to the anchored line ranges (function-body lines only: module-level lines ran at import)
+    try:
+        import coverage
+        u = _u()
+        import pybtex.bibtex.builtins as bmod
+        files = {u.__file__: [(96, 604)], bmod.__file__: [(133, 145), (233, 236), (246, 249), (259, 264), (278, 287), (312, 315)]}
+        cov = coverage.Coverage(include=list(files), data_file=None)
+        cov.start()
+        n = 0
+        r3 = random.Random(ck.seed)
+        for stream, fn, a in gen('quick', random.Random(ck.seed)):
+            if stream == 'pinned' or r3.random() < 0.02:
+                FUNCS[fn][1](norm(a)); n += 1
+        cov.stop()
+        info = {}
+        for f, ranges in files.items():
+            _, stmts, _, missing, _ = cov.analysis2(f)
+            src_lines = open(f).read().split('\n')
+            def body(l):
+                t = src_lines[l - 1]
+                return t.startswith('    ') and not t.lstrip().startswith(('def ', 'class ', '@'))
+            inr = lambda l: any(a <= l <= b for a, b in ranges)
+            st = [l for l in stmts if inr(l) and body(l)]
+            ms = [l for l in missing if inr(l) and body(l)]
+            info[os.path.basename(f)] = {'anchored_body_statements': len(st), 'not_executed': ms}
+        yield {'name': 'impl_line_coverage', 'evaluations': n, 'failures': [],
+               'info': 'anchored function-body statements executed by a sample of the streams: %s' % json.dumps(info)}
+    except Exception as e:
+        yield {'name': 'impl_line_coverage', 'evaluations': 0, 'failures': [], 'info': 'coverage measurement unavailable: %r' % (e,)}
